@@ -232,3 +232,49 @@ pub fn c16(req: &Value) -> Result<Value, String> {
         }
     }
 }
+
+
+/// Matrix URI text conversions (crate-private functions reached through the cfg(ruma_verif) hooks)
+pub fn c11(kind: &str, req: &Value) -> Result<Value, String> {
+    use ruma_common::{matrix_uri::MatrixId, EventId, MatrixToUri, OwnedEventId, OwnedRoomAliasId, OwnedRoomId, OwnedRoomOrAliasId, OwnedUserId, RoomAliasId, RoomId, RoomOrAliasId, UserId};
+    let show = |r: Result<MatrixId, ruma_common::IdParseError>| match r {
+        Ok(v) => json!({"r": "ok", "v": format!("{v:?}")}),
+        Err(e) => json!({"r": "err", "e": format!("{e:?}")}),
+    };
+    match kind {
+        "parse_sigil" => Ok(show(MatrixId::verif_parse_with_sigil(&crate::arg_str(req, "s")?))),
+        "parse_type" => Ok(show(MatrixId::verif_parse_with_type(&crate::arg_str(req, "s")?))),
+        "parse_matrixto" => {
+            let s = format!("https://matrix.to/#/{}", crate::arg_str(req, "s")?);
+            Ok(match MatrixToUri::parse(&s) {
+                Ok(v) => json!({"r": "ok", "v": format!("{v:?}")}),
+                Err(e) => json!({"r": "err", "e": format!("{e:?}")}),
+            })
+        }
+        "roundtrip" => {
+            let ids: Vec<String> = req["ids_hex"].as_array().cloned().unwrap_or_default().iter()
+                .map(|h| String::from_utf8(crate::hex(h.as_str().unwrap_or(""))).map_err(|_| "id not utf-8".to_owned())).collect::<Result<_, _>>()?;
+            let variant = req["variant"].as_str().unwrap_or("");
+            let style = req["style"].as_str().unwrap_or("");
+            let e = |x: ruma_common::IdParseError| format!("{x:?}");
+            let v: MatrixId = match variant {
+                "Room" => <&RoomId>::try_from(ids[0].as_str()).map_err(e)?.into(),
+                "RoomAlias" => <&RoomAliasId>::try_from(ids[0].as_str()).map_err(e)?.into(),
+                "User" => <&UserId>::try_from(ids[0].as_str()).map_err(e)?.into(),
+                _ => {
+                    let room = <&RoomOrAliasId>::try_from(ids[0].as_str()).map_err(e)?;
+                    let ev = <&EventId>::try_from(ids[1].as_str()).map_err(e)?;
+                    (room, ev).into()
+                }
+            };
+            let _unused: Option<(OwnedEventId, OwnedRoomAliasId, OwnedRoomId, OwnedRoomOrAliasId, OwnedUserId)> = None;
+            let text = if style == "sigil" { v.verif_to_string_with_sigil() } else { v.verif_to_string_with_type() };
+            let back = if style == "sigil" { MatrixId::verif_parse_with_sigil(&text) } else { MatrixId::verif_parse_with_type(&text) };
+            Ok(match back {
+                Ok(b) => json!({"r": "ok", "same": b == v, "text": text, "back": format!("{b:?}")}),
+                Err(x) => json!({"r": "err", "e": format!("{x:?}"), "text": text}),
+            })
+        }
+        _ => Err(format!("unknown c11 op {kind}")),
+    }
+}
